@@ -618,3 +618,182 @@ def gen_clalu(src_dir):
         chain = 'if sel_ =? %s then gen_cl_arm_%s insn rdst rsrc else\n  %s' % (n, n, chain)
     out.append("Definition gen_cl_alu (sel_ : Z) (insn : insn) (rdst rsrc : Z) : res (option Z) :=\n  %s.\n" % chain)
     return ''.join(out)
+
+
+# ------------------------------------------------------------------ src/cranelift.rs: the conditional-jump arm, one opcode at a time
+
+class JmpPE(ArmTr):
+    """partial evaluation of the shared conditional-jump arm for one concrete opcode byte: Rust-level conditions on
+    insn.opc are decided here, IR-building code is translated as in ArmTr"""
+
+    def __init__(self, toks, consts, opc):
+        ArmTr.__init__(self, toks, consts)
+        self.opc = opc
+        self.cenv = {}      # rust local -> python value (bool / int / IntCC path)
+
+    def ceval(self, e):
+        while e[0] == 'paren':
+            e = e[1]
+        k = e[0]
+        if k == 'num':
+            return e[1]
+        if k == 'field' and show(e) == 'insn.opc':
+            return self.opc
+        if k == 'path':
+            if e[1] in self.cenv:
+                return self.cenv[e[1]]
+            n = e[1].split('::')[-1]
+            if n in self.consts:
+                return self.consts[n][1]
+            if e[1] in ('true', 'false'):
+                return e[1] == 'true'
+            if e[1] in CC:
+                return ('cc', e[1])
+            raise Unsupported("jump arm: constant %s" % e[1])
+        if k == 'bin':
+            a, b = self.ceval(e[2]), self.ceval(e[3])
+            return {'&': lambda: a & b, '|': lambda: a | b, '==': lambda: a == b, '!=': lambda: a != b}[e[1]]()
+        if k == 'match':
+            sc = e[1]
+            if sc[0] == 'tuple':
+                vals = tuple(self.ceval(x) for x in sc[1])
+            else:
+                vals = self.ceval(sc)
+            for pat, guard, body, ln, attrs in e[2]:
+                saved = dict(self.cenv)
+                if self.pmatch(pat, vals) and (guard is None or self.ceval(guard) is True):
+                    return ('body', body)
+                self.cenv = saved
+            raise Unsupported("jump arm: no arm matches")
+        raise Unsupported("jump arm: cannot evaluate %s" % show(e)[:50])
+
+    def pmatch(self, pat, v):
+        if pat[0] == 'pwild':
+            return True
+        if pat[0] == 'ppath':
+            if pat[1] in ('true', 'false'):
+                return v is (pat[1] == 'true')
+            if pat[1][0].islower():          # binding
+                self.cenv[pat[1]] = v
+                return True
+            return self.ceval(('path', pat[1])) == v
+        if pat[0] == 'ptuple':
+            return isinstance(v, tuple) and len(v) == len(pat[1]) and all(self.pmatch(p, x) for p, x in zip(pat[1], v))
+        raise Unsupported("jump arm: pattern %s" % pat[0])
+
+    def choose(self, e):
+        """if / match on Rust-level constants around IR values -> the chosen branch expression"""
+        if e[0] == 'if':
+            c = self.ceval(e[1])
+            blk = e[2] if c else e[3]
+            return blk
+        if e[0] == 'match':
+            r = self.ceval(e)
+            return r[1]
+        return e
+
+    def value(self, e):
+        if e[0] in ('if', 'match'):
+            b = self.choose(e)
+            while b[0] == 'block' and len(b[1]) == 1 and b[1][0][0] == 'tail':
+                b = b[1][0][1]
+            if b[0] == 'block':
+                raise Unsupported("jump arm: branch is not a single expression")
+            return self.value(b)
+        if e[0] == 'mcall' and e[1][0] == 'mcall' and e[1][2] == 'ins' and e[2] == 'icmp' and e[3][0][0] == 'path' and e[3][0][1] in self.cenv:
+            cc = self.cenv[e[3][0][1]]
+            a, wa = self.value(e[3][1])
+            b, wb = self.value(e[3][2])
+            if wa != wb:
+                raise Unsupported("icmp on different widths")
+            return '(ir_icmp %s %d %s %s)' % (CC[cc[1]], wa, a, b), 8
+        return ArmTr.value(self, e)
+
+    def run(self, sts):
+        result = None
+        for st in sts:
+            if st[0] == 'let':
+                pat, e = st[1], st[3]
+                if pat[0] == 'ptuple':
+                    continue                                   # (fallthrough, target) = self.insn_targets[..]
+                name = pat[1]
+                try:
+                    v = self.ceval(e)
+                    if isinstance(v, tuple) and v[0] == 'body':
+                        b = v[1]
+                        try:
+                            self.cenv[name] = self.ceval(b)
+                            continue
+                        except Unsupported:
+                            pass
+                    else:
+                        self.cenv[name] = v
+                        continue
+                except Unsupported:
+                    pass
+                t, w = self.value(e)
+                vname = self.fresh(name)
+                self.lets.append((vname, t, 'let'))
+                self.env[name] = (vname, w)
+                continue
+            if st[0] in ('stmt', 'tail'):
+                e = st[1]
+                if e[0] == 'mcall' and e[1][0] == 'mcall' and e[1][2] == 'ins' and e[2] == 'brif':
+                    result, w = self.value(e[3][0])
+                    order = [show(e[3][1]), show(e[3][3])]
+                    if order != ['target', 'fallthrough']:
+                        raise Unsupported("brif block order %s" % order)
+                    continue
+                if e[0] == 'mcall' and e[2] == 'insert' and 'filled_blocks' in show(e[1]):
+                    continue
+            raise Unsupported("jump arm: statement at line %s" % (st[2] if st[0] != 'let' else st[4]))
+        if result is None:
+            raise Unsupported("jump arm: no brif")
+        out = result
+        for v, t, kind in reversed(self.lets):
+            out = '(let %s := %s in %s)' % (v, t, out)
+        return out
+
+
+def gen_cljmp(src_dir):
+    env, _ = U.read_consts(src_dir)
+    toks = U.load(src_dir, 'cranelift.rs')
+    out = [U.HDR % 'src/cranelift.rs (translate_program: the value tested by brif in the conditional-jump arm, for each opcode)',
+           "From RbpfV Require Import Ebpf ClirSem.\nFrom RbpfV.gen Require Import Opcodes.\n\n"]
+    _, fbody = R.parse_fn(toks, 'translate_program')
+    arms = []
+
+    def walk(e):
+        if isinstance(e, tuple) and e and e[0] == 'match' and show(e[1]) == 'insn.opc' and len(e[2]) > 50:
+            arms.extend(e[2])
+            return
+        if isinstance(e, (tuple, list)):
+            for x in e:
+                walk(x)
+    walk(fbody)
+    names = []
+    for pat, guard, body, ln, attrs in arms:
+        alts = pat[1] if pat[0] == 'por' else [pat]
+        ops = []
+        for a in alts:
+            if a[0] == 'ppath':
+                n = a[1].split('::')[-1]
+                if n in env and (env[n][1] & 7) in (5, 6) and env[n][1] not in (0x05, 0x85, 0x8d, 0x95):
+                    ops.append(n)
+        if not ops:
+            continue
+        if len(ops) != len(alts):
+            raise Unsupported("conditional jumps share an arm with other opcodes")
+        for n in ops:
+            pe = JmpPE(toks, env, env[n][1])
+            term = pe.run(list(body[1]))
+            out.append("Definition gen_cl_jmp_%s (insn : insn) (rdst rsrc : Z) : Z :=\n  %s.\n\n" % (n, term))
+            names.append(n)
+    if len(names) != 44:
+        raise Unsupported("%d conditional-jump opcodes recognised (44 expected)" % len(names))
+    chain = '0'
+    for n in reversed(names):
+        chain = 'if sel_ =? %s then gen_cl_jmp_%s insn rdst rsrc else\n  %s' % (n, n, chain)
+    out.append("(* the value brif tests: the branch to the jump target is taken iff it is non-zero *)\n"
+               "Definition gen_cl_jmp (sel_ : Z) (insn : insn) (rdst rsrc : Z) : Z :=\n  %s.\n" % chain)
+    return ''.join(out)
